@@ -330,6 +330,96 @@ class Resolver:
             return alts[0]
         return ("phi", tuple(alts))
 
+    def origins(self, e):
+        """Leaf definitions the value of expression e can come from, following plain name copies
+        (x = y): [(defining statement or None for a parameter / non-name expression, term)]."""
+        out = []
+        seen = set()
+        self.origin_chains = chains = []
+        chain = []
+
+        def rec(e, at):
+            if not (isinstance(e, ast.Name) and (e.id in self.defs or e.id in self.fn.params)):
+                out.append((None, self.term(e, at=at)))
+                chains.append(list(chain))
+                return
+            name = e.id
+            defs = self.defs.get(name, [])
+            reaching = None
+            if self.flow and at is not None:
+                reaching = {idx for (nm, idx) in self.IN[at] if nm == name} | {idx for (nm, idx) in self.always if nm == name}
+            if name in self.fn.params and (reaching is None or -1 in reaching or not defs):
+                out.append((None, ("param", self.fn.params.index(name), name)))
+                chains.append(list(chain))
+            for idx, (desc, path) in enumerate(defs):
+                if (reaching is not None and idx not in reaching) or (name, idx) in seen:
+                    continue
+                seen.add((name, idx))
+                dat = self.def_node.get((name, idx)) if self.flow else None
+                st = self.def_stmt.get((name, idx))
+                if desc[0] == "val" and not path and isinstance(desc[1], ast.Name):
+                    chain.append(st)
+                    rec(desc[1], dat)
+                    chain.pop()
+                    continue
+                if desc[0] == "val":
+                    t = self.term(desc[1], at=dat)
+                    for p in path:
+                        if p == "*":
+                            t = ("op", "starrest", (t,))
+                        elif t[0] in ("tuple", "list") and isinstance(p, int) and p < len(t[1]):
+                            t = t[1][p]
+                        else:
+                            t = ("sub", t, ("const", p))
+                elif desc[0] == "elem":
+                    t = ("elem", self.term(desc[1], at=dat))
+                else:
+                    t = ("expr", "?")
+                out.append((st, t))
+                chains.append(list(chain))
+
+        rec(e, self._at(e) if self.flow else None)
+        return out
+
+    def copy_sites(self, e):
+        """Like origins, but the statements of the *last* plain copy on each chain: for `a = b` reaching e
+        returns that assignment with the term of b: [(statement, term)] (parameters: (None, term))."""
+        out = []
+        if not (isinstance(e, ast.Name) and (e.id in self.defs or e.id in self.fn.params)):
+            return [(None, self.term(e))]
+        at = self._at(e) if self.flow else None
+        name = e.id
+        defs = self.defs.get(name, [])
+        reaching = None
+        if self.flow and at is not None:
+            reaching = {idx for (nm, idx) in self.IN[at] if nm == name} | {idx for (nm, idx) in self.always if nm == name}
+        if name in self.fn.params and (reaching is None or -1 in reaching or not defs):
+            out.append((None, ("param", self.fn.params.index(name), name)))
+        for idx, (desc, path) in enumerate(defs):
+            if reaching is not None and idx not in reaching:
+                continue
+            t = self._name_def(name, idx)
+            out.append((self.def_stmt.get((name, idx)), t))
+        return out
+
+    def _name_def(self, name, idx):
+        desc, path = self.defs[name][idx]
+        dat = self.def_node.get((name, idx)) if self.flow else None
+        if desc[0] == "val":
+            t = self.term(desc[1], at=dat)
+        elif desc[0] == "elem":
+            t = ("elem", self.term(desc[1], at=dat))
+        else:
+            return ("expr", "?")
+        for p in path:
+            if p == "*":
+                t = ("op", "starrest", (t,))
+            elif t[0] in ("tuple", "list") and isinstance(p, int) and p < len(t[1]):
+                t = t[1][p]
+            else:
+                t = ("sub", t, ("const", p))
+        return t
+
     # ------------------------------------------------------------------ callee resolution (for normalisation only)
     def _callee(self, f, ft):
         """The repo function a call resolves to when that is unambiguous, else None."""
